@@ -200,6 +200,9 @@ func c06Strata() []*gast.Grammar {
 		// a repetition that matched from o to e is evaluated again exactly at e (zero iterations there)
 		mk(r("S", gast.C(gast.S(gast.Lab("a", gast.Ref("As")), gast.L("?")), gast.S(gast.L("xx"), gast.Lab("b", gast.Ref("As")), gast.L("!")), gast.S(gast.L("x"), gast.Lab("d", gast.Ref("Bs")), gast.Star(gast.Dot())))),
 			r("As", gast.Star(gast.L("x"))), r("Bs", gast.S(gast.Plus(gast.L("x")), gast.Opt(gast.Star(gast.L("x")))))),
+		// a re-reached match that spans a newline followed by multi-byte runes (positions after a cache hit)
+		mk(r("S", gast.C(gast.S(gast.Lab("a", gast.Ref("B")), gast.L("!"), act(gast.Star(gast.Dot()), 1)), gast.S(gast.Lab("a", gast.Ref("B")), gast.L("?"), gast.Lab("b", gast.Ref("T")), act(gast.Star(gast.Dot()), 2)))),
+			r("B", act(gast.S(gast.Plus(gast.Cl(gast.Chars("xé"))), gast.L("\n"), gast.Star(gast.Cl(gast.Chars("é世")))), 3)), r("T", gast.A(gast.Plus(gast.Cl(gast.Chars("zé\n"))), 4, mon.Spec{E: 1}))),
 	}
 }
 
